@@ -15,6 +15,19 @@ theorem setSlot_undo (f : Nat → Nat) (k v : Nat) : setSlot (setSlot f k v) k (
   simp only [setSlot]
   split <;> simp_all
 
+/-- undoing a journal segment does not depend on the native store it starts from, except that the result keeps that
+store when the segment holds no native entry: if the segment leads to `w`, it also does from `w`'s own native store -/
+theorem undoAll_fix_native (seg : List (Entry N)) (v w : View N) (h : undoAll seg v = w) :
+    undoAll seg { v with native := w.native } = w := by
+  induction seg generalizing v with
+  | nil => simp only [undoAll] at h ⊢; subst h; rfl
+  | cons e es ih =>
+    simp only [undoAll] at h ⊢
+    cases e with
+    | slot k prev => exact ih _ h
+    | native snap => exact h
+    | log => exact ih _ h
+
 /-- `s'` was reached from `s` by journaled operations only: its journal extends `s`'s and undoing the extension gives
 back exactly `s`'s storage, native store and logs -/
 def Ext (s s' : St N) : Prop := ∃ seg, s'.journal = seg ++ s.journal ∧ undoAll seg s'.toView = s.toView
@@ -60,35 +73,25 @@ theorem ext_enter (s : St N) (h : CallHdr N) : Ext s (s.enter h) := by
   · exact ext_transfer s _
   · exact Ext.refl s
 
-theorem ext_setNative_push (s : St N) (n : N) :
-    Ext s { s with native := n, journal := .native s.native :: s.journal } := by
-  refine ⟨[.native s.native], by simp, ?_⟩
-  cases s with
-  | mk vw j => cases vw with | mk sl nat lg => simp [undoAll, undo]
+/-- `ExecuteNativeAction` on error: putting the snapshot of the entry state back keeps the journal discipline, whatever
+journaled operations (EVM calls, logs) happened in between -/
+theorem ext_restore {s t : St N} (h : Ext s t) : Ext s { t with native := s.native } := by
+  obtain ⟨seg, hj, hu⟩ := h
+  exact ⟨seg, hj, undoAll_fix_native seg t.toView s.toView hu⟩
+
+/-- `ExecuteNativeAction` on success: the snapshot of the entry state is journaled on top of whatever was journaled in
+between; the store the action leaves can be anything -/
+theorem ext_journal_snapshot {s t : St N} (h : Ext s t) (n : N) :
+    Ext s { t with native := n, journal := .native s.native :: t.journal } := by
+  obtain ⟨seg, hj, hu⟩ := h
+  refine ⟨.native s.native :: seg, by simp [hj], ?_⟩
+  simp only [undoAll, undo]
+  exact undoAll_fix_native seg t.toView s.toView hu
 
 theorem addLogs_native (s : St N) (ls : List Nat) : (s.addLogs ls).native = s.native := by
   induction ls generalizing s with
   | nil => rfl
   | cons l ls ih => simp only [St.addLogs]; rw [ih]; rfl
-
-theorem eta_native (t : St N) (n : N) (h : t.native = n) : ({ t with native := n } : St N) = t := by
-  subst h; rfl
-
-theorem ext_nativeAction (s : St N) (ro : Bool) (act : Action N) : Ext s (s.nativeAction ro act).2 := by
-  unfold St.nativeAction
-  have h1 := ext_addLogs s (act ro s.native).2.2
-  have hn := addLogs_native s (act ro s.native).2.2
-  by_cases hok : (act ro s.native).1 = true
-  · simp only [hok, ↓reduceIte]
-    refine h1.trans ?_
-    have := ext_setNative_push (s.addLogs (act ro s.native).2.2) (act ro s.native).2.1
-    rw [hn] at this
-    exact this
-  · simp only [hok, Bool.false_eq_true, ↓reduceIte]
-    have : ({ s.addLogs (act ro s.native).2.2 with native := s.native } : St N) = s.addLogs (act ro s.native).2.2 :=
-      eta_native _ _ hn
-    simp only [this]
-    exact h1
 
 theorem addLogs_view (s : St N) (ls : List Nat) : (s.addLogs ls).toView = s.toView.addLogs ls := by
   induction ls generalizing s with
@@ -102,124 +105,368 @@ theorem enter_view (s : St N) (h : CallHdr N) : (s.enter h).toView = s.toView.en
   unfold St.enter View.enter
   split <;> simp [St.transfer]
 
-/-- simulation relation between a journal-machine result (entered at `s`) and a snapshot-machine result -/
+/-- simulation relation between a journal-machine result (entered at `s`) and a snapshot-machine result; after an
+unrecovered panic the state is never looked at again -/
 def Good (s : St N) (r : Outcome × St N × Nat) (r' : Outcome × View N × Nat) : Prop :=
-  Ext s r.2.1 ∧ r.1 = r'.1 ∧ r.2.2 = r'.2.2 ∧ (r.1 = .ok → r.2.1.toView = r'.2.1)
+  r.1 = r'.1 ∧ r.2.2 = r'.2.2 ∧ (r.1 ≠ .abort → Ext s r.2.1) ∧ (r.1 = .ok → r.2.1.toView = r'.2.1)
 
 theorem good_fail (s : St N) (v : View N) : Good s (.fail, s, 0) (.fail, v, 0) :=
-  ⟨Ext.refl s, rfl, rfl, by simp⟩
+  ⟨rfl, rfl, fun _ => Ext.refl s, by simp⟩
 
-theorem runPre_good (ro : Bool) (gas req : Nat) (act : Action N) (s : St N) :
-    Good s (runPre ro gas req act s) (specPre ro gas req act s.toView) := by
+theorem good_of_ext {s s1 : St N} {r : Outcome × St N × Nat} {r' : Outcome × View N × Nat}
+    (h1 : Ext s s1) (hg : Good s1 r r') : Good s r r' :=
+  ⟨hg.1, hg.2.1, fun hne => h1.trans (hg.2.2.1 hne), hg.2.2.2⟩
+
+/-- the evaluator simulates the spec evaluator on the callee programs of `inner` -/
+def EvGood (ev : Eval N) (sev : SEval N) (inner : List (Nat × List (Prog N))) : Prop :=
+  ∀ x ∈ inner, ∀ ro (s : St N), Good s (ev ro x.1 x.2 s) (sev ro x.1 x.2 s.toView)
+
+theorem runInner_good (ev : Eval N) (sev : SEval N) (ro : Bool) :
+    ∀ (inner : List (Nat × List (Prog N))) (s : St N), EvGood ev sev inner →
+      (runInner ev ro inner s).1 = (specInner sev ro inner s.toView).1 ∧
+      ((runInner ev ro inner s).1 ≠ .panic → Ext s (runInner ev ro inner s).2) ∧
+      ((runInner ev ro inner s).1 = .ok → (runInner ev ro inner s).2.toView = (specInner sev ro inner s.toView).2) := by
+  intro inner
+  induction inner with
+  | nil => intro s _; exact ⟨rfl, fun _ => Ext.refl s, fun _ => rfl⟩
+  | cons x rest ih =>
+    intro s hev
+    obtain ⟨g, body⟩ := x
+    have hx := hev (g, body) (List.mem_cons_self ..) ro s
+    have hrest : EvGood ev sev rest := fun y hy => hev y (List.mem_cons_of_mem _ hy)
+    obtain ⟨ho, _, hext, hv⟩ := hx
+    simp only [runInner, specInner]
+    simp only at ho hext hv
+    rw [← ho]
+    by_cases hok : (ev ro g body s).1 = .ok
+    · simp only [hok, ↓reduceIte]
+      have hne : (ev ro g body s).1 ≠ .abort := by rw [hok]; decide
+      have h1 := ih (ev ro g body s).2.1 hrest
+      rw [hv hok] at h1
+      exact ⟨h1.1, fun hp => (hext hne).trans (h1.2.1 hp), h1.2.2⟩
+    · simp only [hok, ↓reduceIte]
+      by_cases hab : (ev ro g body s).1 = .abort
+      · simp only [hab, ↓reduceIte]
+        exact ⟨by first | rfl | trivial, fun h => absurd rfl h, fun h => by cases h⟩
+      · simp only [hab, ↓reduceIte]
+        refine ⟨by first | rfl | trivial, fun _ => ?_, fun h => by cases h⟩
+        rw [revertTo_of_ext (hext hab)]
+        exact Ext.refl s
+
+theorem keeper_fst (s : St N) (ro : Bool) (g : Nat) (act : ActionX N) : (s.keeper ro g act).1 = (act ro g s.native).1 := rfl
+
+/-- a precompile call of the clean shape: the journal machine (fork `ExecuteNativeAction` + the method's `Run`) simulates
+the snapshot semantics, for every keeper part, every list of EVM calls made from inside and every gas value -/
+theorem runPre_good (ev : Eval N) (sev : SEval N) (roCtx roCall : Bool) (gas req : Nat) (sh : RunShape) (out : N → N)
+    (inner : List (Nat × List (Prog N))) (act : ActionX N) (s : St N) (hsh : sh.clean = true)
+    (hev : EvGood ev sev inner) :
+    Good s (runPre ev roCtx roCall gas req sh out inner act s) (specPre sev roCtx roCall gas req sh out inner act s.toView) := by
+  have hb : sh.outerBefore = false ∧ sh.recovers = false ∧ sh.evmAfterWrite = false := by
+    simp only [RunShape.clean, Bool.and_eq_true, Bool.not_eq_true'] at hsh
+    exact ⟨hsh.1.1, hsh.1.2, hsh.2⟩
+  obtain ⟨h1, h3, h4⟩ := hb
   unfold runPre specPre
   by_cases hg : gas < req
   · simp only [hg, ↓reduceIte]; exact good_fail s _
-  · simp only [hg, ↓reduceIte]
-    have hext := ext_nativeAction s ro act
-    by_cases hok : (act ro s.native).1 = true
-    · have h1 : (s.nativeAction ro act).1 = true := by simp [St.nativeAction, hok]
-      simp only [h1, hok, ↓reduceIte]
-      refine ⟨hext, rfl, rfl, fun _ => ?_⟩
-      simp only [St.nativeAction, hok, ↓reduceIte]
-      have := addLogs_view s (act ro s.native).2.2
-      simp only [← this]
-    · have h1 : (s.nativeAction ro act).1 = false := by simp [St.nativeAction, hok]
-      simp only [h1, hok, Bool.false_eq_true, ↓reduceIte]
-      exact ⟨hext, rfl, rfl, by simp⟩
+  · simp only [hg, ↓reduceIte, h1, h3, Bool.false_eq_true, runClosure, h4]
+    have hi := runInner_good ev sev roCtx inner s hev
+    obtain ⟨hio, hiext, hiv⟩ := hi
+    generalize hri : runInner ev roCtx inner s = ri at hio hiext hiv
+    generalize hsi : specInner sev roCtx inner s.toView = si at hio hiv
+    obtain ⟨r1, s1⟩ := ri
+    obtain ⟨r1', v1⟩ := si
+    simp only at hio hiext hiv
+    subst hio
+    cases r1 with
+    | ok =>
+      simp only
+      have hext1 : Ext s s1 := hiext (by decide)
+      have hv1 : s1.toView = v1 := hiv rfl
+      have hn : s1.native = v1.native := by rw [← hv1]
+      simp only [St.keeper]
+      rw [← hn]
+      generalize hact : act roCall (gas - req) s1.native = a
+      obtain ⟨ra, na, la⟩ := a
+      have hextL : Ext s (s1.addLogs la) := hext1.trans (ext_addLogs s1 la)
+      cases ra with
+      | ok =>
+        simp only
+        cases hoa : sh.outerAfter with
+        | false =>
+          simp only [Bool.false_eq_true, ↓reduceIte]
+          refine ⟨rfl, rfl, fun _ => ?_, fun _ => ?_⟩
+          · exact ext_journal_snapshot hextL na
+          · simp only [addLogs_view, hv1]
+        | true =>
+          simp only [↓reduceIte, St.poke]
+          refine ⟨rfl, rfl, fun _ => ?_, fun _ => ?_⟩
+          · exact ext_journal_snapshot hextL (out na)
+          · simp only [addLogs_view, hv1]
+      | err =>
+        simp only
+        refine ⟨rfl, rfl, fun _ => ?_, fun h => by cases h⟩
+        exact ext_restore hextL
+      | panic =>
+        simp only
+        exact ⟨rfl, rfl, fun h => absurd rfl h, fun h => by cases h⟩
+    | err =>
+      simp only
+      refine ⟨rfl, rfl, fun _ => ?_, fun h => by cases h⟩
+      exact ext_restore (hiext (by decide))
+    | panic =>
+      simp only
+      exact ⟨rfl, rfl, fun h => absurd rfl h, fun h => by cases h⟩
 
 theorem resolve_good (h : CallHdr N) (s : St N) (keep : Nat) (r : Outcome × St N × Nat)
     (r' : Outcome × View N × Nat) (hg : Good s r r') :
     (∃ x y, resolve h s.journal.length keep r = .inl x ∧ specResolve h s.toView keep r' = .inl y ∧
         Ext s x.1 ∧ x.1.toView = y.1 ∧ x.2 = y.2)
     ∨ (∃ a b, resolve h s.journal.length keep r = .inr a ∧ specResolve h s.toView keep r' = .inr b ∧ Good s a b) := by
-  obtain ⟨hext, ho, hgas, hv⟩ := hg
+  obtain ⟨ho, hgas, hext, hv⟩ := hg
   unfold resolve specResolve
   rw [← ho, ← hgas]
-  by_cases hok : r.1 = .ok
-  · simp only [hok, ↓reduceIte]
-    by_cases hp : keep + r.2.2 < h.pOk
-    · simp only [hp, ↓reduceIte]
-      exact .inr ⟨_, _, rfl, rfl, hext, rfl, rfl, by simp⟩
-    · simp only [hp, ↓reduceIte]
-      exact .inl ⟨_, _, rfl, rfl, hext, hv hok, rfl⟩
-  · simp only [hok, ↓reduceIte, revertTo_of_ext hext]
-    by_cases hp : keep + (if r.1 = .revert then r.2.2 else 0) < h.pFail
-    · simp only [hp, ↓reduceIte]
-      exact .inr ⟨_, _, rfl, rfl, good_fail s _⟩
-    · simp only [hp, ↓reduceIte]
-      by_cases hs : h.swallow = true
-      · simp only [hs, ↓reduceIte]
-        exact .inl ⟨_, _, rfl, rfl, Ext.refl s, rfl, rfl⟩
-      · simp only [hs, Bool.false_eq_true, ↓reduceIte]
-        exact .inr ⟨_, _, rfl, rfl, Ext.refl s, rfl, rfl, by simp⟩
+  by_cases hab : r.1 = .abort
+  · simp only [hab, ↓reduceIte]
+    exact .inr ⟨_, _, rfl, rfl, rfl, rfl, fun h => absurd rfl h, fun h => by cases h⟩
+  · simp only [hab, ↓reduceIte]
+    have hext := hext hab
+    by_cases hok : r.1 = .ok
+    · simp only [hok, ↓reduceIte]
+      by_cases hp : keep + r.2.2 < h.pOk
+      · simp only [hp, ↓reduceIte]
+        exact .inr ⟨_, _, rfl, rfl, rfl, rfl, fun _ => hext, by simp⟩
+      · simp only [hp, ↓reduceIte]
+        exact .inl ⟨_, _, rfl, rfl, hext, hv hok, rfl⟩
+    · simp only [hok, ↓reduceIte, revertTo_of_ext hext]
+      by_cases hp : keep + (if r.1 = .revert then r.2.2 else 0) < h.pFail
+      · simp only [hp, ↓reduceIte]
+        exact .inr ⟨_, _, rfl, rfl, good_fail s _⟩
+      · simp only [hp, ↓reduceIte]
+        by_cases hs : h.swallow = true
+        · simp only [hs, ↓reduceIte]
+          exact .inl ⟨_, _, rfl, rfl, Ext.refl s, rfl, rfl⟩
+        · simp only [hs, Bool.false_eq_true, ↓reduceIte]
+          exact .inr ⟨_, _, rfl, rfl, rfl, rfl, fun _ => Ext.refl s, by simp⟩
 
-theorem good_of_ext {s s1 : St N} {r : Outcome × St N × Nat} {r' : Outcome × View N × Nat}
-    (h1 : Ext s s1) (hg : Good s1 r r') : Good s r r' :=
-  ⟨h1.trans hg.1, hg.2⟩
-
-/-- the journal machine simulates the snapshot machine — every program, fuel, gas, static flag and entry state -/
-theorem exec_good : ∀ (fuel : Nat) (ro : Bool) (gas : Nat) (p : List (Prog N)) (s : St N),
+/-- the journal machine simulates the snapshot machine — every program all of whose precompile calls have the clean
+shape, every fuel, gas, static flag and entry state -/
+theorem exec_good : ∀ (fuel : Nat) (ro : Bool) (gas : Nat) (p : List (Prog N)) (s : St N), Clean p →
     Good s (exec fuel ro gas p s) (spec fuel ro gas p s.toView) := by
   intro fuel
   induction fuel with
-  | zero => intro ro gas p s; exact good_fail s _
+  | zero => intro ro gas p s _; exact good_fail s _
   | succ fuel ih =>
-    intro ro gas p s
-    cases p with
-    | nil => exact ⟨Ext.refl s, rfl, rfl, fun _ => rfl⟩
-    | cons i rest =>
-      cases i with
-      | sstore c k v =>
-        simp only [exec, spec]
-        by_cases hc : gas < c ∨ ro = true
-        · simp only [hc, ↓reduceIte]; exact good_fail s _
-        · simp only [hc, ↓reduceIte]
-          have := ih ro (gas - c) rest (s.sstore k v)
-          exact good_of_ext (ext_sstore s k v) this
-      | revert c =>
-        simp only [exec, spec]
-        by_cases hc : gas < c
-        · simp only [hc, ↓reduceIte]; exact good_fail s _
-        · simp only [hc, ↓reduceIte]; exact ⟨Ext.refl s, rfl, rfl, by simp⟩
-      | stop c =>
-        simp only [exec, spec]
-        by_cases hc : gas < c
-        · simp only [hc, ↓reduceIte]; exact good_fail s _
-        · simp only [hc, ↓reduceIte]; exact ⟨Ext.refl s, rfl, rfl, fun _ => rfl⟩
-      | invalid => simp only [exec, spec]; exact good_fail s _
-      | call h body =>
-        simp only [exec, spec]
-        by_cases hc : gas < h.callc ∨ (ro = true ∧ h.xfer.isSome = true)
-        · simp only [hc, ↓reduceIte]; exact good_fail s _
-        · simp only [hc, ↓reduceIte]
-          have hb := ih (ro || h.kind == .staticcall) (fwdGas h gas + h.stip) body (s.enter h)
-          rw [enter_view] at hb
-          have hb' := good_of_ext (ext_enter s h) hb
-          rcases resolve_good h s (keepGas h gas) _ _ hb' with ⟨x, y, hx, hy, hext, hv, hgs⟩ | ⟨a, b, ha, hb2, hgood⟩
-          · rw [hx, hy]
-            simp only
-            have := ih ro x.2 rest x.1
-            rw [hv] at this
-            rw [← hgs]
-            exact good_of_ext hext this
-          · rw [ha, hb2]
-            exact hgood
-      | pre h req act =>
-        simp only [exec, spec]
-        by_cases hc : gas < h.callc ∨ (ro = true ∧ h.xfer.isSome = true)
-        · simp only [hc, ↓reduceIte]; exact good_fail s _
-        · simp only [hc, ↓reduceIte]
-          have hb := runPre_good (h.kind != .call) (fwdGas h gas + h.stip) req act (s.enter h)
-          rw [enter_view] at hb
-          have hb' := good_of_ext (ext_enter s h) hb
-          rcases resolve_good h s (keepGas h gas) _ _ hb' with ⟨x, y, hx, hy, hext, hv, hgs⟩ | ⟨a, b, ha, hb2, hgood⟩
-          · rw [hx, hy]
-            simp only
-            have := ih ro x.2 rest x.1
-            rw [hv] at this
-            rw [← hgs]
-            exact good_of_ext hext this
-          · rw [ha, hb2]
-            exact hgood
+    intro ro gas p s hcl
+    cases hcl with
+    | nil => exact ⟨rfl, rfl, fun _ => Ext.refl s, fun _ => rfl⟩
+    | @sstore c k v rest hrest =>
+      simp only [exec, spec]
+      by_cases hc : gas < c ∨ ro = true
+      · simp only [hc, ↓reduceIte]; exact good_fail s _
+      · simp only [hc, ↓reduceIte]
+        have := ih ro (gas - c) rest (s.sstore k v) hrest
+        exact good_of_ext (ext_sstore s k v) this
+    | @revert c rest =>
+      simp only [exec, spec]
+      by_cases hc : gas < c
+      · simp only [hc, ↓reduceIte]; exact good_fail s _
+      · simp only [hc, ↓reduceIte]; exact ⟨rfl, rfl, fun _ => Ext.refl s, by simp⟩
+    | @stop c rest =>
+      simp only [exec, spec]
+      by_cases hc : gas < c
+      · simp only [hc, ↓reduceIte]; exact good_fail s _
+      · simp only [hc, ↓reduceIte]; exact ⟨rfl, rfl, fun _ => Ext.refl s, fun _ => rfl⟩
+    | @invalid rest => simp only [exec, spec]; exact good_fail s _
+    | @call h body rest hbody hrest =>
+      simp only [exec, spec]
+      by_cases hc : gas < h.callc ∨ (ro = true ∧ h.xfer.isSome = true)
+      · simp only [hc, ↓reduceIte]; exact good_fail s _
+      · simp only [hc, ↓reduceIte]
+        have hb' : Good s
+            (if h.unfunded s.native then (.revert, s, fwdGas h gas + h.stip)
+             else exec fuel (ro || h.kind == .staticcall) (fwdGas h gas + h.stip) body (s.enter h))
+            (if h.unfunded s.native then (.revert, s.toView, fwdGas h gas + h.stip)
+             else spec fuel (ro || h.kind == .staticcall) (fwdGas h gas + h.stip) body (s.toView.enter h)) := by
+          by_cases hu : h.unfunded s.native = true
+          · simp only [hu, ↓reduceIte]; exact ⟨rfl, rfl, fun _ => Ext.refl s, by simp⟩
+          · simp only [hu]
+            have hb := ih (ro || h.kind == .staticcall) (fwdGas h gas + h.stip) body (s.enter h) hbody
+            rw [enter_view] at hb
+            exact good_of_ext (ext_enter s h) hb
+        rcases resolve_good h s (keepGas h gas) _ _ hb' with ⟨x, y, hx, hy, hext, hv, hgs⟩ | ⟨a, b, ha, hb2, hgood⟩
+        · rw [hx, hy]
+          simp only
+          have := ih ro x.2 rest x.1 hrest
+          rw [hv] at this
+          rw [← hgs]
+          exact good_of_ext hext this
+        · rw [ha, hb2]
+          exact hgood
+    | @pre h req sh out inner act rest hsh hinner hrest =>
+      simp only [exec, spec]
+      by_cases hc : gas < h.callc ∨ (ro = true ∧ h.xfer.isSome = true)
+      · simp only [hc, ↓reduceIte]; exact good_fail s _
+      · simp only [hc, ↓reduceIte]
+        have hev : EvGood (exec fuel) (spec fuel) inner := fun x hx ro' s' => ih ro' x.1 x.2 s' (hinner x hx)
+        have hb' : Good s
+            (if h.unfunded s.native then (.revert, s, fwdGas h gas + h.stip)
+             else runPre (exec fuel) ro (h.kind != .call) (fwdGas h gas + h.stip) req sh out inner act (s.enter h))
+            (if h.unfunded s.native then (.revert, s.toView, fwdGas h gas + h.stip)
+             else specPre (spec fuel) ro (h.kind != .call) (fwdGas h gas + h.stip) req sh out inner act (s.toView.enter h)) := by
+          by_cases hu : h.unfunded s.native = true
+          · simp only [hu, ↓reduceIte]; exact ⟨rfl, rfl, fun _ => Ext.refl s, by simp⟩
+          · simp only [hu]
+            have hb := runPre_good (exec fuel) (spec fuel) ro (h.kind != .call) (fwdGas h gas + h.stip) req sh out inner act
+              (s.enter h) hsh hev
+            rw [enter_view] at hb
+            exact good_of_ext (ext_enter s h) hb
+        rcases resolve_good h s (keepGas h gas) _ _ hb' with ⟨x, y, hx, hy, hext, hv, hgs⟩ | ⟨a, b, ha, hb2, hgood⟩
+        · rw [hx, hy]
+          simp only
+          have := ih ro x.2 rest x.1 hrest
+          rw [hv] at this
+          rw [← hgs]
+          exact good_of_ext hext this
+        · rw [ha, hb2]
+          exact hgood
+
+/-- the transaction wrapper: anything but a normal end hands back the initial view -/
+theorem tx_wrap_fail (r : Outcome × View N × Nat) (v : View N) :
+    (if r.1 = .ok then (Outcome.ok, r.2.1, r.2.2) else (r.1, v, if r.1 = .revert then r.2.2 else 0)).1 ≠ .ok →
+    (if r.1 = .ok then (Outcome.ok, r.2.1, r.2.2) else (r.1, v, if r.1 = .revert then r.2.2 else 0)).2.1 = v := by
+  by_cases hok : r.1 = .ok <;> simp [hok]
+
+/-! ## without panics there is no abort -/
+
+theorem runInner_ne_panic (ev : Eval N) (ro : Bool) :
+    ∀ (inner : List (Nat × List (Prog N))) (s : St N),
+      (∀ x ∈ inner, ∀ ro' (s' : St N), (ev ro' x.1 x.2 s').1 ≠ .abort) → (runInner ev ro inner s).1 ≠ .panic := by
+  intro inner
+  induction inner with
+  | nil => intro s _; simp [runInner]
+  | cons x rest ih =>
+    intro s hev
+    obtain ⟨g, body⟩ := x
+    have hx := hev (g, body) (List.mem_cons_self ..) ro s
+    simp only at hx
+    simp only [runInner]
+    by_cases hok : (ev ro g body s).1 = .ok
+    · simp only [hok, ↓reduceIte]
+      exact ih _ (fun y hy => hev y (List.mem_cons_of_mem _ hy))
+    · simp [hok, hx]
+
+theorem runPre_ne_abort (ev : Eval N) (roCtx roCall : Bool) (gas req : Nat) (sh : RunShape) (out : N → N)
+    (inner : List (Nat × List (Prog N))) (act : ActionX N) (s : St N)
+    (hact : ∀ ro g n, (act ro g n).1 ≠ .panic)
+    (hev : ∀ x ∈ inner, ∀ ro' (s' : St N), (ev ro' x.1 x.2 s').1 ≠ .abort) :
+    (runPre ev roCtx roCall gas req sh out inner act s).1 ≠ .abort := by
+  unfold runPre
+  by_cases hg : gas < req
+  · simp [hg]
+  · simp only [hg, ↓reduceIte]
+    have hcl : ∀ s0, (runClosure ev roCtx roCall (gas - req) sh inner act s0).1 ≠ .panic := by
+      intro s0
+      unfold runClosure
+      cases sh.evmAfterWrite with
+      | true =>
+        simp only [↓reduceIte]
+        generalize hk : s0.keeper roCall (gas - req) act = k
+        obtain ⟨rk, sk⟩ := k
+        have : rk = (act roCall (gas - req) s0.native).1 := by
+          have := congrArg Prod.fst hk; simpa [St.keeper] using this.symm
+        cases rk with
+        | ok => exact runInner_ne_panic ev roCtx inner sk hev
+        | err => simp
+        | panic => exact absurd this.symm (hact _ _ _)
+      | false =>
+        simp only [Bool.false_eq_true, ↓reduceIte]
+        generalize hi : runInner ev roCtx inner s0 = i
+        obtain ⟨ri, si⟩ := i
+        have hri : ri ≠ .panic := by
+          have := runInner_ne_panic ev roCtx inner s0 hev; rw [hi] at this; exact this
+        cases ri with
+        | ok => simp only [St.keeper]; exact hact _ _ _
+        | err => simp
+        | panic => exact absurd rfl hri
+    generalize hc : runClosure ev roCtx roCall (gas - req) sh inner act (if sh.outerBefore = true then s.poke out else s) = c
+    obtain ⟨rc, sc⟩ := c
+    have := hcl (if sh.outerBefore = true then s.poke out else s)
+    rw [hc] at this
+    cases rc with
+    | ok => simp
+    | err => simp
+    | panic => exact absurd rfl this
+
+theorem resolve_ne_abort (h : CallHdr N) (snap keep : Nat) (r : Outcome × St N × Nat) (hr : r.1 ≠ .abort) :
+    ∀ a, resolve h snap keep r = .inr a → a.1 ≠ .abort := by
+  intro a
+  unfold resolve
+  simp only [hr, ↓reduceIte]
+  by_cases hok : r.1 = .ok
+  · simp only [hok, ↓reduceIte]
+    by_cases hp : keep + r.2.2 < h.pOk <;> simp only [hp, ↓reduceIte] <;> intro ha
+    · cases ha; simp
+    · cases ha
+  · simp only [hok, ↓reduceIte]
+    by_cases hp : keep + (if r.1 = .revert then r.2.2 else 0) < h.pFail
+    · simp only [hp, ↓reduceIte]; intro ha; cases ha; simp
+    · simp only [hp, ↓reduceIte]
+      by_cases hs : h.swallow = true <;> simp only [hs, ↓reduceIte, Bool.false_eq_true] <;> intro ha
+      · cases ha
+      · cases ha; simp
+
+/-- a program none of whose keeper parts panics never aborts -/
+theorem exec_ne_abort : ∀ (fuel : Nat) (ro : Bool) (gas : Nat) (p : List (Prog N)) (s : St N), NoPanic p →
+    (exec fuel ro gas p s).1 ≠ .abort := by
+  intro fuel
+  induction fuel with
+  | zero => intro ro gas p s _; simp [exec]
+  | succ fuel ih =>
+    intro ro gas p s hnp
+    cases hnp with
+    | nil => simp [exec]
+    | @sstore c k v rest hrest =>
+      simp only [exec]
+      by_cases hc : gas < c ∨ ro = true
+      · simp [hc]
+      · simp only [hc, ↓reduceIte]; exact ih _ _ _ _ hrest
+    | @revert c rest => simp only [exec]; by_cases hc : gas < c <;> simp [hc]
+    | @stop c rest => simp only [exec]; by_cases hc : gas < c <;> simp [hc]
+    | @invalid rest => simp [exec]
+    | @call h body rest hbody hrest =>
+      simp only [exec]
+      by_cases hc : gas < h.callc ∨ (ro = true ∧ h.xfer.isSome = true)
+      · simp [hc]
+      · simp only [hc, ↓reduceIte]
+        have hb : (if h.unfunded s.native then ((.revert, s, fwdGas h gas + h.stip) : Outcome × St N × Nat)
+            else exec fuel (ro || h.kind == .staticcall) (fwdGas h gas + h.stip) body (s.enter h)).1 ≠ .abort := by
+          by_cases hu : h.unfunded s.native = true
+          · simp [hu]
+          · simp only [hu]
+            exact ih (ro || h.kind == .staticcall) (fwdGas h gas + h.stip) body (s.enter h) hbody
+        have hres := resolve_ne_abort h s.journal.length (keepGas h gas) _ hb
+        cases hr : resolve h s.journal.length (keepGas h gas)
+            (if h.unfunded s.native then (.revert, s, fwdGas h gas + h.stip)
+             else exec fuel (ro || h.kind == .staticcall) (fwdGas h gas + h.stip) body (s.enter h)) with
+        | inl x => exact ih _ _ _ _ hrest
+        | inr a => exact hres a hr
+    | @pre h req sh out inner act rest hact hinner hrest =>
+      simp only [exec]
+      by_cases hc : gas < h.callc ∨ (ro = true ∧ h.xfer.isSome = true)
+      · simp [hc]
+      · simp only [hc, ↓reduceIte]
+        have hb : (if h.unfunded s.native then ((.revert, s, fwdGas h gas + h.stip) : Outcome × St N × Nat)
+            else runPre (exec fuel) ro (h.kind != .call) (fwdGas h gas + h.stip) req sh out inner act (s.enter h)).1 ≠ .abort := by
+          by_cases hu : h.unfunded s.native = true
+          · simp [hu]
+          · simp only [hu]
+            exact runPre_ne_abort (exec fuel) ro (h.kind != .call) (fwdGas h gas + h.stip) req sh out inner act (s.enter h)
+              hact (fun x hx ro' s' => ih ro' x.1 x.2 s' (hinner x hx))
+        have hres := resolve_ne_abort h s.journal.length (keepGas h gas) _ hb
+        cases hr : resolve h s.journal.length (keepGas h gas)
+            (if h.unfunded s.native then (.revert, s, fwdGas h gas + h.stip)
+             else runPre (exec fuel) ro (h.kind != .call) (fwdGas h gas + h.stip) req sh out inner act (s.enter h)) with
+        | inl x => exact ih _ _ _ _ hrest
+        | inr a => exact hres a hr
 
 end FxVerif.Proofs.C09
